@@ -719,9 +719,25 @@ def eval_term(t, env):
         if isinstance(v, bool):
             return not v
         raise _Unknown()
+    if h in ('index', 'cindex') and len(t) >= 3:
+        base = eval_term(t[1], env)
+        i_ = t[2] if isinstance(t[2], int) and not isinstance(t[2], bool) else eval_term(t[2], env)
+        if isinstance(base, tuple) and base[:1] == ('bytes',) and isinstance(i_, int) and 0 <= i_ < len(base[1]):
+            return base[1][i_]
+        raise _Unknown()
     if h == 'call' and isinstance(t[1], str):
         nm = t[1]
         args = t[2]
+        if nm.endswith(('::to_be_bytes', '::to_le_bytes')) and len(args) == 1:
+            import re as _re
+            m_ = _re.search(r'impl ([ui])(8|16|32|64)>', nm)
+            v = eval_term(args[0], env)
+            if m_ is None or not isinstance(v, int) or isinstance(v, bool):
+                raise _Unknown()
+            n_ = int(m_.group(2)) // 8
+            v &= (1 << (8 * n_)) - 1
+            bs_ = tuple((v >> (8 * k_)) & 0xFF for k_ in range(n_))
+            return ('bytes', bs_[::-1] if nm.endswith('to_be_bytes') else bs_)
         if nm.endswith('::is_multiple_of') and len(args) == 2:
             a, b = eval_term(args[0], env), eval_term(args[1], env)
             return (a == 0) if b == 0 else a % b == 0
